@@ -650,6 +650,7 @@ func runScenario(t *wirecodec.Table, sc *scen, o *out) {
 			expUID, expGID = uint64(uid), uint64(gid)
 		}
 	}
+	invoke := func() {
 	switch sc.M {
 	case "Walk", "WalkGetAttr":
 		names := []string{"n1"}
@@ -833,11 +834,40 @@ func runScenario(t *wirecodec.Table, sc *scen, o *out) {
 	case "RemoveXattr":
 		cerr = target.RemoveXattr("user.x")
 	}
+	}
+	invoke()
+	w.mu.Lock()
+	firstEnd := len(w.frames)
+	w.mu.Unlock()
+	firstErr := cerr
+	firstRet := ret
+	retried, retryErr, retryCalls := false, error(nil), 0
+	switch sc.M {
+	case "Open", "Mkdir", "GetAttr", "SetAttr", "StatFS", "ReadAt", "WriteAt", "FSync", "Lock", "Symlink", "Mknod", "Link", "UnlinkAt", "Readdir", "Readlink", "RenameAt":
+		if sc.Kind == "err" {
+			// the same operation once more, the backend now succeeds: it must reach the File again
+			gmu.Lock()
+			before := len(got)
+			gmu.Unlock()
+			saveErr := berr
+			berr = nil
+			invoke()
+			retryErr = cerr
+			gmu.Lock()
+			retryCalls = len(got) - before
+			got = got[:before]
+			gmu.Unlock()
+			berr = saveErr
+			cerr = firstErr
+			ret = firstRet
+			retried = true
+		}
+	}
 	gmu.Lock()
 	calls := append([]call{}, got...)
 	gmu.Unlock()
 	w.mu.Lock()
-	frames := append([]captured{}, w.frames[startFrames:]...)
+	frames := append([]captured{}, w.frames[startFrames:firstEnd]...)
 	w.mu.Unlock()
 	o.Frames += len(frames)
 
@@ -864,6 +894,9 @@ func runScenario(t *wirecodec.Table, sc *scen, o *out) {
 	} else if cerr != nil && !(sc.M == "ReadAt" && errors.Is(cerr, io.EOF)) {
 		o.add("C03", fmt.Sprintf("%s: unexpected error %v", desc, cerr))
 		return
+	}
+	if retried && (retryCalls == 0 || (retryErr != nil && !errors.Is(retryErr, io.EOF))) {
+		o.add("C03", fmt.Sprintf("%s: after the failed call the same operation was issued again with a healthy backend: error %v, backend calls %d - it must reach the File and succeed", desc, retryErr, retryCalls))
 	}
 	// ---- C03: the backend call
 	wantFile := w.fileOf[target]
